@@ -49,6 +49,13 @@ pub fn tcase(seed: u64, idx: u64, family: u64, maxnodes: u64) -> (NodeSpec, Vec<
         _ => if idx % 5 == 0 { 150 } else { 60 },
     };
     let mut t = treegen::tree(&mut rng, &cfg);
+    // treegen draws the node budget uniformly: for two thirds of the cases take the larger of two trees (more nesting, more mixing)
+    if idx % 3 != 0 {
+        let t2 = treegen::tree(&mut rng, &cfg);
+        if t2.count() > t.count() {
+            t = t2;
+        }
+    }
     fn fix(rng: &mut Rng, cfg: &GenCfg, n: &mut NodeSpec, depth: usize, parent: Option<Display>) {
         if rng.chance(1, 16) {
             n.style.item_is_table = true;
@@ -80,8 +87,8 @@ pub fn tcase(seed: u64, idx: u64, family: u64, maxnodes: u64) -> (NodeSpec, Vec<
                 n.style.size.height = Dimension::auto();
             }
         }
-        // an absolute grid child's line outside the implicit grid panics: keep most of them auto
-        if parent == Some(Display::Grid) && n.style.position == Position::Absolute && rng.chance(3, 4) {
+        // an absolute grid child's line outside the implicit grid panics: keep half of them auto
+        if parent == Some(Display::Grid) && n.style.position == Position::Absolute && rng.chance(1, 2) {
             n.style.grid_row = Line { start: GridPlacement::Auto, end: GridPlacement::Auto };
             n.style.grid_column = Line { start: GridPlacement::Auto, end: GridPlacement::Auto };
         }
